@@ -701,14 +701,22 @@ var rulePragmaValue = &core.Rule{ID: "R12.7", Min: 1,
 					srcs = ph.Edges
 				}
 				okAll, bad := true, false
+				nTrim, nRaw := 0, 0
 				for _, v := range srcs {
 					switch {
 					case isWSTrim(v):
+						nTrim++
 					case afterEq(v):
-						bad = true
+						nRaw++
 					default:
 						okAll = false
 					}
+				}
+				// trimmed on some paths and not on others (a mode flag shared with another flavour of the scanner): undecided
+				if nRaw > 0 && nTrim == 0 {
+					bad = true
+				} else if nRaw > 0 {
+					okAll = false
 				}
 				switch {
 				case bad:
